@@ -36,6 +36,15 @@ SMALL_ARGS = ("{" + ", ".join([G.format(2), G.format(5), G.format(100),
                                '[rr |-> "genuine", sig |-> "genuine", key |-> "otherKey", rttl |-> 5]',
                                '[rr |-> "addOtherClass", sig |-> "genuine", key |-> "genuine", rttl |-> 5]',
                                '[rr |-> "genuine", sig |-> "forged", key |-> "childKey", rttl |-> 5]']) + "}")
+# members added / reordered after a verdict was cached; a revoked trust anchor introducing a key
+KEY_ARGS = ("{" + ", ".join([G.format(5), G.format(100),
+                             '[rr |-> "addForgedTwice", sig |-> "genuine", key |-> "genuine", rttl |-> 5]',
+                             '[rr |-> "addRecord", sig |-> "genuine", key |-> "genuine", rttl |-> 5]',
+                             '[rr |-> "genuine", sig |-> "twoSigs", key |-> "genuine", rttl |-> 5]',
+                             '[rr |-> "genuine", sig |-> "swapSigs", key |-> "genuine", rttl |-> 5]',
+                             '[rr |-> "addOtherClass", sig |-> "swapSigs", key |-> "genuine", rttl |-> 5]',
+                             '[rr |-> "genuine", sig |-> "forged", key |-> "revokedAnchor", rttl |-> 5]',
+                             '[rr |-> "genuine", sig |-> "genuine", key |-> "revokedAnchor", rttl |-> 5]']) + "}")
 ALL_CFGS = '{"none", "minAbove", "maxBelow"}'
 # name, defs, maxcalls, maxlog, maxvar, nameCaseSigned
 GENUINE_ARGS = "{" + ", ".join([G.format(2), G.format(5), G.format(100)]) + "}"
@@ -51,6 +60,8 @@ GEN_QUICK = [
     # the validation-cache TTL configuration as a dimension: genuine objects, time passing
     ("config", {"P_RecTtls": "{2, 5, 100}", "P_Steps": "{1, 3, 7}", "P_Starts": "{8, 11, 14}", "P_Cfgs": ALL_CFGS,
                 "P_Args": GENUINE_ARGS, "P_RRV": "AllRRV", "P_SIGV": "AllSIGV", "P_KEYV": "AllKEYV"}, 3, 5, 0, "TRUE"),
+    ("cachekey", {"P_RecTtls": "{5, 100}", "P_Steps": "{1, 7}", "P_Starts": "{8, 11}", "P_Cfgs": '{"none", "minAbove"}',
+                  "P_Args": KEY_ARGS, "P_RRV": "AllRRV", "P_SIGV": "AllSIGV", "P_KEYV": "AllKEYV"}, 3, 5, 3, "TRUE"),
     ("config2", {"P_RecTtls": "{5, 100}", "P_Steps": "{3, 7}", "P_Starts": "{8, 11}", "P_Cfgs": ALL_CFGS,
                  "P_Args": SMALL_ARGS, "P_RRV": "AllRRV", "P_SIGV": "AllSIGV", "P_KEYV": "AllKEYV"}, 2, 3, 1, "TRUE"),
 ]
@@ -72,7 +83,8 @@ MC_CFGS = [("MC_SigCheck_variants", ("CacheHit", "Advance")), ("MC_SigCheck_hist
 MC_THOROUGH = [("MC_SigCheck_history_max", ()), ("MC_SigCheck_history3", ())]
 # deliberate deviations of the machine from a required rule: each must yield a counterexample
 DEVIATIONS = [("clampAfterCap", "C06_SecureOnlyInWindow"), ("markGroup", "C06_StrayNeverSecure"),
-              ("signerZoneOf", "C06_SecureOnlyGenuine")]
+              ("signerZoneOf", "C06_SecureOnlyGenuine"), ("xorKey", "C06_SecureOnlyGenuine"),
+              ("xorKey", "C06_StrayNeverSecure"), ("revokedSignsKeys", "C06_SecureOnlyGenuine")]
 
 
 def _alteration(note, parts=("rr", "sig", "key")):
@@ -144,10 +156,10 @@ def run(res, tier, seed):
     for d, inv in DEVIATIONS:
         lines = [f'  Deviation = "{d}"' if l.strip().startswith("Deviation") else ("INVARIANTS " + inv) if l.startswith("INVARIANTS")
                  else l for l in base]
-        tla_p, cfg_p = vlib.wrapper(wd, "Dev_" + d, "MC_SigCheck", {}, lines)
+        tla_p, cfg_p = vlib.wrapper(wd, f"Dev_{d}_{inv}", "MC_SigCheck", {}, lines)
         rc, out = vlib.tlc(tla_p, cfg_p, wd, workers=4, timeout=600)
-        dev[d] = f"Invariant {inv} is violated" in out
-        if not dev[d]:
+        dev[d + ":" + inv] = f"Invariant {inv} is violated" in out
+        if not dev[d + ":" + inv]:
             raise vlib.ToolError(f"vacuous model: deviation {d} does not violate {inv}")
     res.extra["deviation_counterexamples"] = dev
 
